@@ -221,7 +221,22 @@ def check(prog, res, tier):
                     p.interp.py_key(e.data['args'][0]) == 'MAX_VBS_RECORD_LENGTH':
                 d = p.interp.py_key(e.data['args'][1]) if len(e.data['args']) > 1 else None
                 found.append(d)
+    early = []
     if not found:
+        # looked up somewhere else?  at construction time is as good; in a parameter default it happens once, at import
+        for p in rr.runs('mciipm.VbsReader', False).inv:
+            for e in p.events:
+                if e.kind == 'method' and e.data['name'] == 'get' and e.data['args'] and \
+                        p.interp.py_key(e.data['args'][0]) == 'MAX_VBS_RECORD_LENGTH':
+                    early.append((bool(e.data.get('def_time')), p.interp.py_key(e.data['args'][1]) if len(e.data['args']) > 1 else None, e))
+    if not found and any(dt for dt, _d, _e in early):
+        ob.verdict = REFUTED
+        ob.detail = ('the maximum record length is looked up in a parameter default, i.e. once when the module is imported: a '
+                     'maximum configured afterwards is ignored by every reader')
+        ob.witness = {'lookup': 'def-time'}
+    elif not found and early and all(d == 6000 for _dt, d, _e in early):
+        ob.verdict, ob.detail = PROVED, f'looked up when the reader is constructed, default 6000 ({len(early)} path visits)'
+    elif not found:
         ob.verdict, ob.detail = UNDECIDED, 'configuration lookup not observed'
     elif any(d != 6000 for d in found):
         ob.verdict, ob.detail, ob.witness = REFUTED, f'default maximum is {sorted(set(map(str, found)))}, not 6000', {'defaults': sorted(set(map(str, found)))}
